@@ -234,6 +234,45 @@ def check_cfg(ctx, fx, cfg):
         ctx.require(sorted(v["name"] for v in pa["variants"]) == ["Restart", "Stop", "Task"], "R01.6", "payload-variants@" + cfg, "Payload variants changed: %s" % [v["name"] for v in pa["variants"]], site=pa["loc"])
     for f, kind in loops.find_loops(fx):
         ctx.require("A" in f.get("upvars", []), "R01.6", "%s-loop-owns-actor-by-value@%s" % (kind, cfg), "the loop future must own the actor value itself (type A), found captures %s" % [u[:40] for u in f.get("upvars", [])], fn=f["def"], site=f["loc"])
+    # R01.8 each payload closure runs the handler of its own message exactly once on the loop's (actor, ctx)
+    n_pl = 0
+    for key, ent in fx.dyn.items():
+        if not (key.startswith("dyn core::ops::function::FnOnce<(&mut A, &mut context::Context<A>)>") and "[Output=core::pin::Pin<alloc::boxed::Box<dyn core::future::future::Future + [Output=()]" in key):
+            continue
+        for s in ent["sources"]:
+            pc = fx.fn(s.get("def") or "")
+            if pc is None:
+                continue
+            n_pl += 1
+            fam = [pc] + fx.descendants(pc["def"])
+            hs = []
+            for g in fam:
+                gb = ctx.body(fx, g)
+                for bi, t in gb.normal_calls():
+                    if t.get("trait") == loops.T_H and (t.get("callee") or "").endswith("::handle"):
+                        hs.append((g, gb, t))
+            inst = "payload:%s@%s" % (pc["def"], cfg)
+            is_ping = "::ping::" in pc["def"]
+            if is_ping:
+                ctx.require(not hs, "R01.8", inst, "ping must not run a handler", fn=pc["def"], site=pc["loc"])
+                continue
+            if not ctx.require(len(hs) == 1, "R01.8", inst, "a message payload must invoke Handler::handle exactly once, found %d sites" % len(hs), fn=pc["def"], site=pc["loc"]):
+                continue
+            g, gb, t = hs[0]
+            # in the payload closure itself: actor = arg 2, ctx = arg 3; in a nested coroutine they arrive as captures
+            ra = roots(gb, t["args"][0])
+            rc = roots(gb, t["args"][1])
+            rm = roots(gb, t["args"][2])
+            if g["def"] == pc["def"]:
+                ok = all(r.kind == "arg" and r.site == 2 for r in ra) and all(r.kind == "arg" and r.site == 3 for r in rc) and all(r.kind == "upvar" for r in rm)
+            else:
+                ok = all(r.kind == "upvar" for r in ra | rc | rm) and len({r.site for r in ra | rc | rm}) == 3
+            ctx.require(ok, "R01.8", inst, "the payload must run the handler on the loop's actor and context with its own message: actor %s ctx %s msg %s" % (sorted(map(str, ra)), sorted(map(str, rc)), sorted(map(str, rm))), fn=g["def"], site=t["l"])
+            # the handler future is the payload's future: returned boxed or awaited inside it
+            fsk = sinks(gb, t["dest"][0])
+            ok2 = any(x["k"] == "ret" for x in fsk) or any(x["k"] == "call" and (x["t"].get("callee") or "").endswith("Future::poll") for x in fsk)
+            ctx.require(ok2, "R01.8", inst + ":drives-handler", "the handler future is neither returned as the payload's future nor awaited in it", fn=g["def"], site=t["l"])
+    ctx.floor("R01.8", "payload closures (%s)" % cfg, n_pl, 7)
     # R01.7 unsafe
     u = fx.d["unsafe"]
     ctx.require(u["lint_level"] == "Forbid" and u["count"] == 0, "R01.7", "unsafe-free@" + cfg, "unsafe code present or not forbidden: %s" % u, site="Cargo.toml [lints.rust]", detail=u)
